@@ -4,6 +4,8 @@
 // nothing in /repo is edited).  Cache part: all load sequences up to a depth
 // over a small name alphabet, against a 10-line reference map.
 #include <climits>
+#include <sys/wait.h>
+#include <unistd.h>
 
 #include "../common/harness.h"
 #include "../common/impl_glue.h"
@@ -281,6 +283,84 @@ static void cache_part(int shard, int nshards, int depth, hz::Result& r) {
   r.count("states", static_cast<long long>(states.size()));
 }
 
+// ---------------------------------------------------------------------------
+// text part: format() / parse() keep no visible state of their own, so the answer to a call must be the one a
+// process gives that makes this call FIRST.  Every ordered pair (and, thorough, triple) of calls over a small
+// alphabet runs in a fresh child process; the last call's answer is compared with the fresh-process answer.
+// The alphabet mixes short and long C-library runs, runs whose expansion exceeds FormatTM's 16x growth limit
+// (their value is unspecified, but it must be the same every time), library-rendered specifiers, and parses.
+struct TextCall { bool parse; const char* fmt; const char* in; };
+static const TextCall kText[] = {
+    {false, "%Y-%m-%d %H:%M:%S", ""}, {false, "%A is day %j of the year, in the month of %B, which is a rather long piece of text for strftime %c", ""},
+    {false, "%72A", ""}, {false, "%40c", ""}, {false, "%Ez %Z %E*S %s", ""}, {false, "%64B|%64b", ""}, {false, "%a", ""}, {false, "%1000Y", ""},
+    {false, "%E4Y %U %W %u %w %E15f", ""}, {false, "", ""},
+    {true, "%Y-%m-%d %H:%M:%S", "2013-11-03 01:30:00"}, {true, "%A %B %d %Y %I:%M %p", "Sunday November 03 2013 01:30 PM"}, {true, "%Y %U %w %Ez", "2017 53 0 +01:30"},
+    {true, "%s", "-1"}, {true, "%Y-%m-%d", "2016-02-30"}, {true, "%c", "Thu Jan  1 00:00:00 1970"}};
+static const int kNText = static_cast<int>(sizeof(kText) / sizeof(kText[0]));
+
+static std::string text_answer(const TextCall& c, const cctz::time_zone& tz) {
+  if (!c.parse) return "F:" + cctz::format(c.fmt, glue::tp_of(1383456600LL), tz);
+  cctz::time_point<cctz::seconds> tp;
+  const bool ok = cctz::parse(c.fmt, c.in, tz, &tp);
+  return ok ? "P:" + std::to_string(glue::unix_of(tp)) : "P:fail";
+}
+
+// runs the calls of `seq` in a fresh process (two zones: UTC and the first shipped DST zone) and returns the last answers
+static std::string text_child(const std::vector<int>& seq, const std::string& nybytes) {
+  int fds[2];
+  if (pipe(fds) != 0) return "pipe-failed";
+  fflush(nullptr);
+  pid_t pid = fork();
+  if (pid == 0) {
+    close(fds[0]);
+    cctz::time_zone ny;
+    glue::load_bytes("hs/text/ny", nybytes, &ny);
+    std::string out;
+    for (size_t i = 0; i < seq.size(); ++i) {
+      const std::string a = text_answer(kText[seq[i]], cctz::utc_time_zone()) + "|" + text_answer(kText[seq[i]], ny);
+      if (i + 1 == seq.size()) out = a;
+    }
+    if (write(fds[1], out.data(), out.size()) < 0) {}
+    _exit(0);
+  }
+  close(fds[1]);
+  std::string out;
+  char buf[4096];
+  ssize_t n;
+  while ((n = read(fds[0], buf, sizeof buf)) > 0) out.append(buf, n);
+  close(fds[0]);
+  int st = 0;
+  waitpid(pid, &st, 0);
+  if (!WIFEXITED(st) || WEXITSTATUS(st) != 0) out += "<child died>";
+  return out;
+}
+
+static void text_part(int shard, int nshards, bool thorough, const std::string& nybytes, hz::Result& r) {
+  std::vector<std::string> fresh(kNText);
+  for (int i = 0; i < kNText; ++i) fresh[i] = text_child({i}, nybytes);
+  long long idx = 0;
+  const int depth = thorough ? 3 : 2;
+  for (int len = 2; len <= depth; ++len) {
+    long long total = 1;
+    for (int i = 0; i < len; ++i) total *= kNText;
+    for (long long v = 0; v < total; ++v) {
+      if ((idx++ % nshards) != shard) continue;
+      std::vector<int> seq(len);
+      long long x = v;
+      for (int i = 0; i < len; ++i) { seq[i] = static_cast<int>(x % kNText); x /= kNText; }
+      const std::string got = text_child(seq, nybytes);
+      r.count("evaluations");
+      r.count("transitions", len);
+      r.cls("C14:text:len" + std::to_string(len));
+      if (got != fresh[seq.back()]) {
+        std::string d;
+        for (int k : seq) d += std::string(d.empty() ? "" : " ; ") + (kText[k].parse ? "parse(" : "format(") + hz::jstr(kText[k].fmt) + (kText[k].parse ? std::string(", ") + hz::jstr(kText[k].in) : std::string()) + ")";
+        r.violation("C14:text:history-dependent", "after [" + d + "] the last call answers [" + got.substr(0, 200) + "] but [" + fresh[seq.back()].substr(0, 200) + "] as the first call of a process", {"--textseq", std::to_string(v), "--textlen", std::to_string(len)});
+      }
+    }
+  }
+}
+
 int main(int argc, char** argv) {
   hz::Args a = hz::parse_args(argc, argv);
   g_thorough = a.thorough();
@@ -298,6 +378,7 @@ int main(int argc, char** argv) {
   }
   const int depth = a.thorough() ? 5 : 4;  // 10-name alphabet: 11 110 (111 110) sequences
   if (a.has("--seq")) { cache_part(0, 1, depth, total); return hz::finish(a, total); }
+  if (a.has("--textseq")) { text_part(0, 1, a.thorough(), glue::read_file(dir + "/America/New_York"), total); return hz::finish(a, total); }
   const int nshards = 128;
   hz::PoolOpts po; po.workers = a.workers;
   hz::run_shards(nshards, po, a.workdir, [&](const hz::ShardCtl& ctl, hz::Result& r) {
@@ -309,6 +390,8 @@ int main(int argc, char** argv) {
     }
     hz::begin_case(1 << 20, "cache sequences");
     cache_part(ctl.shard, nshards, depth, r);
+    hz::begin_case((1 << 20) + 1, "format/parse call sequences");
+    text_part(ctl.shard, nshards, a.thorough(), glue::read_file(dir + "/America/New_York"), r);
   }, &total, [&](long long cid, const std::string&) -> std::vector<std::string> {
     if (cid >= 0 && cid < (long long)zs.size()) return {"--zone", zs[cid].id};
     return {};
